@@ -8,7 +8,7 @@ en-passant writers (play and import) record a file under the same condition.
 Does not decide: equality of hashes over all move orders as executed (runtime quantity).
 """
 import hashlib, os, re
-from . import core, hir
+from . import core, hir, mir
 from .common import (zobrist_expected, start_hash_from_tables, sym_fn, discr_map, field_writes,
                      neighbour_pawn_guard, POSITION_FOLD_CASES)
 
@@ -185,6 +185,24 @@ def rule_k5(ctx, F):
                       expected="a past_hashes slot, zobrist::BLACK_TO_MOVE, or GameState::hash of the current state",
                       found=hir.fmt(rhs, 200))
     ctx.floor("C04.K5", "xor sites", n_sites, 8)
+    # the state key folded by the importer is the key of the FINAL root state: no state write (set_en_passant, castling setters,
+    # a direct store to the byte) may follow the point where GameState::hash is taken
+    nw = F.fn("chess::Game::new")
+    cfg = mir.Cfg(nw)
+    hs = [b for b, t in cfg.calls(lambda c, t: c == "chess::gamestate::GameState::hash")]
+    ws = [(b, t) for b, t in cfg.calls(lambda c, t: c.startswith("chess::gamestate::GameState::set_"))]
+    late = []
+    for hb in hs:
+        after = cfg.reach_from_succs(hb) if hasattr(cfg, "reach_from_succs") else set()
+        for wb, t in ws:
+            if wb in after:
+                late.append((mir.span_line(t), mir.callee(t).split("::")[-1]))
+    ctx.check("C04.K5", "importer-state-key-taken-from-the-final-state", bool(hs) and not late, fn=nw["path"], file=nw["file"],
+              line=late[0][0] if late else nw["span"][0],
+              what="the importer changes the root state (castling rights / en-passant file) after it has folded the state key into the "
+                   "hash: the hash then belongs to a different state than the one the game is in (loaded and played positions disagree, "
+                   "positions that differ only in that state collide)",
+              expected="every GameState setter call precedes GameState::hash in Game::new", found={"state keys taken": len(hs), "later state writes": late})
 
 
 def classify_hash_operand(rhs, fn_path):
